@@ -161,7 +161,12 @@ pub fn model_cases(r: &mut Rng, n: usize) -> Vec<Case> {
     for _ in 0..n / 2 {
         let dd = r.below(3) as u32; let t = gen_tree(r, dd);
         let k = r.below(4);
-        let idx: Vec<usize> = (0..k).map(|_| r.below(4)).collect();
+        // two thirds of the paths stay inside the tree as long as they can
+        let idx: Vec<usize> = if r.chance(2, 3) {
+            let mut cur = &t; let mut path = vec![];
+            for _ in 0..k { match cur { T::Node(cs) if !cs.is_empty() => { let i = r.below(cs.len()); path.push(i); cur = &cs[i]; } _ => { path.push(r.below(2)); break; } } }
+            path
+        } else { (0..k).map(|_| r.below(4)).collect() };
         let imp = match catch_unwind(AssertUnwindSafe(|| tree_iter(&t).read(idx.clone()))) {
             Ok(Ok(p)) => format!("(ok {})", prim_tree(&p)),
             Ok(Err(e)) => { let d = format!("{:?}", e.base_error()); format!("(err {})", d.split(|c: char| !c.is_alphanumeric()).next().unwrap_or("")) }
@@ -248,7 +253,7 @@ impl<'a> FragGen<'a> {
                 let hi = if self.r.chance(1, 2) { self.leaf(bound) } else { Ce::Add(Box::new(self.leaf(bound)), Box::new(Ce::Lit(self.r.range(0, 3)))) };
                 ItG { vars: vec![name(self)], src: SrcG::Range(lo, hi, self.r.chance(1, 2)) } }
             3 | 4 => ItG { vars: vec![name(self)], src: SrcG::Arr(self.ints()) },
-            5 | 6 => { let n = 1 + self.r.below(2); let mut vs: Vec<String> = (0..n).map(|_| name(self)).collect(); if self.r.chance(1, 6) { vs[0] = "_".into(); } if self.r.chance(1, 12) { vs.push(name(self)); } ItG { vars: vs, src: SrcG::Enum(self.ints()) } }
+            5 | 6 => { let n = 1 + self.r.below(2); let mut vs: Vec<String> = (0..n).map(|_| name(self)).collect(); if self.r.chance(1, 6) { vs[0] = "_".into(); } if self.r.chance(1, 5) { vs.push(name(self)); } ItG { vars: vs, src: SrcG::Enum(self.ints()) } }
             7 | 8 => { let n = 1 + self.r.below(2); let vs: Vec<String> = (0..n).map(|_| name(self)).collect(); ItG { vars: vs, src: SrcG::Zip(self.ints(), self.ints()) } }
             // scoping errors: a name that is already bound
             _ => { let v = if !bound.is_empty() && self.r.chance(1, 2) { self.r.pick(bound).clone() } else { name(self) }; ItG { vars: vec![v], src: SrcG::Arr(self.ints()) } }
@@ -263,12 +268,13 @@ impl<'a> FragGen<'a> {
                 1 if !bound.is_empty() => Me::Var(self.r.pick(bound).clone()),
                 2 => Me::Var(if self.logic { "bz".into() } else { "z".into() }),
                 3 if !bound.is_empty() && self.r.chance(1, 8) => Me::Cvar("x".into(), vec![Ce::Var("q".into())]), // unbound identifier = name fragment
+                3 if self.r.chance(1, 6) => Me::Cvar("x".into(), vec![Ce::Add(Box::new(Ce::Var("q".into())), Box::new(Ce::Lit(1)))]), // unbound identifier inside arithmetic: an error
                 _ => { let n = 1 + self.r.below(2); let ix = (0..n).map(|_| self.ce(bound, 1)).collect(); Me::Cvar(if self.logic { "b".into() } else { "x".into() }, ix) }
             };
         }
         match self.r.below(7) {
             0 | 1 => { let ops: &[&'static str] = if self.logic { &["and", "or", "xor", "implies", "iff"] } else { &["add", "sub", "mul", "div"] }; let op = *self.r.pick(ops); Me::Bin(op, Box::new(self.me(bound, d - 1)), Box::new(self.me(bound, d - 1))) }
-            2 => { let ks: &[&'static str] = if self.logic { &["all", "any", "xor"] } else { &["min", "max", "avg", "abs"] }; let k = *self.r.pick(ks); let n = if k == "abs" { 1 } else { 1 + self.r.below(3) }; Me::Blk(k, (0..n).map(|_| self.me(bound, d - 1)).collect()) }
+            2 => { let ks: &[&'static str] = if self.logic { &["all", "any", "xor"] } else { &["min", "max", "avg", "abs"] }; let k = *self.r.pick(ks); let n = if k == "abs" { if self.r.chance(1, 6) { 2 } else { 1 } } else { 1 + self.r.below(3) }; Me::Blk(k, (0..n).map(|_| self.me(bound, d - 1)).collect()) }
             _ => {
                 let ks: &[&'static str] = if self.logic { &["all", "any", "xor"] } else { &["sum", "sum", "prod", "avg", "min", "max"] };
                 let k = *self.r.pick(ks);
